@@ -1007,7 +1007,9 @@ func evalCover(c Case) (info, error) {
 
 func evalMerge(c Case) (info, error) {
 	var inf info
-	if c.Z > 22 || c.Target > c.Z {
+	// merging has no projection in it: tile sets of any zoom the Tile type holds
+	// are decided exactly (zoom 30 is used beside the property's 0..22)
+	if c.Z > 30 || c.Target > c.Z {
 		return inf, fmt.Errorf("harness: bad zooms %d/%d", c.Z, c.Target)
 	}
 	n := uint64(1) << c.Z
